@@ -85,6 +85,7 @@ type aStep struct {
 	Par     [][]aStep           `json:"par"`
 	Conf    *aConf              `json:"conf"`
 	Full    bool                `json:"full"`
+	Names   []string            `json:"names"`
 	Mid     []aStep             `json:"mid"`   // executed after Split bytes of the body have been read by the handler
 	Split   int                 `json:"split"`
 }
@@ -600,7 +601,32 @@ func (e *aEnv) step(st aStep, idx int) (res aRes) {
 		res.Names = store.VerifRepoNames(e.s.store)
 		sort.Strings(res.Names)
 	case "snapshot":
-		res.Files = snapshot(e.rootDir(), st.Full)
+		if st.Kind == "case" {
+			res.Files = snapshot(e.dir, st.Full)
+		} else {
+			res.Files = snapshot(e.rootDir(), st.Full)
+		}
+	case "regex":
+		// the regular expressions of the source, evaluated on the given names: "1"/"0" per name for rePath, RefTagRE
+		for _, f := range st.Files {
+			a, b := "0", "0"
+			if rePath.MatchString(f.Path) {
+				a = "1"
+			}
+			if types.RefTagRE.MatchString(f.Path) {
+				b = "1"
+			}
+			res.Names = append(res.Names, a+b)
+		}
+	case "matchv2":
+		// matchV2 on explicit path elements (Files[i].Path = element) with the patterns in Names
+		els := []string{}
+		for _, f := range st.Files {
+			els = append(els, f.Path)
+		}
+		m, ok := matchV2(els, st.Names...)
+		res.Flag = ok
+		res.Names = m
 	case "write":
 		if err := writeFiles(e.rootDir(), st.Files); err != nil {
 			res.Err = err.Error()
